@@ -1,5 +1,6 @@
 import RedisVerif.Driver.C15
 import RedisVerif.Model.Conn
+import RedisVerif.Model.ConnWrite
 
 /-
   C04 sub-driver.  One line in, one line out:
@@ -8,6 +9,12 @@ import RedisVerif.Model.Conn
         successive network segments and then EOF
       → n=<replies> [<reply> ; …] end=<eof|crash>
     reply = `V <value>` | `E` (an error reply) | `PE` (-ERR protocol error) | `OV` (buffer overflow)
+    W <minPipeline> <batchThreshold> <headerLen> <readSize> <maxBuffer> <seg,seg,…> <script> <stop>
+        the WRITE side (Model/ConnWrite.lean): script = answers of the peer's socket to successive
+        poll_write / poll_flush calls, `a<k>` (takes k bytes / flush ok) or `f` (fails), comma
+        separated, `-` = empty (exhausted = takes everything); stop = `-` or the number of reads
+        after which read() fails
+      → w=<hex of the bytes the peer received> reads=<reads processed>
 -/
 namespace RedisVerif.Driver.C04
 open RedisVerif.Driver RedisVerif.Resp RedisVerif.Conn
@@ -49,8 +56,26 @@ def showConn (out : List Action') : String :=
     let rs := replies ExSt.init acts
     s!"n={rs.length} [{" ; ".intercalate (rs.map showReply)}] end={if crashed acts then "crash" else "eof"}"
 
+def wevOf (t : String) : Option ConnW.WEv :=
+  match t.toList with
+  | ['f'] => some .fail
+  | 'a' :: ds => (String.ofList ds).toNat?.map ConnW.WEv.accept
+  | _ => none
+
+def scriptOf (t : String) : Option (List ConnW.WEv) :=
+  if t == "-" then some [] else (t.splitOn ",").mapM wevOf
+
 def step (line : String) : String :=
   match tokens line with
+  | ["W", mp, bt, hl, rs, mb, segs, script, stop] =>
+    let stopO : Option (Option Nat) := if stop == "-" then some none else stop.toNat?.map some
+    match mp.toNat?, bt.toNat?, hl.toNat?, rs.toNat?, mb.toNat?, segsOf segs, scriptOf script, stopO with
+    | some mp, some bt, some hl, some rs, some mb, some ss, some sc, some st =>
+      let cfg : Config := { minPipeline := mp, batchThreshold := bt, headerLen := hl, readSize := rs,
+                            maxBuffer := mb, checked := true, codec := codec1, env := C15.envD }
+      let r := ConnW.runW cfg ConnW.refExec ExSt.init sc ss st
+      s!"w={hexOfBytes r.out} reads={r.reads}"
+    | _, _, _, _, _, _, _, _ => "bad-op"
   | ["P", mp, bt, hl, rs, mb, ps, conns] =>
     match mp.toNat?, bt.toNat?, hl.toNat?, rs.toNat?, mb.toNat?, ps.toNat?, (conns.splitOn ";").mapM connOf with
     | some mp, some bt, some hl, some rs, some mb, some ps, some specs =>
